@@ -1,6 +1,8 @@
 """Which parts decide which property.  part = dict(name, kind: proof|bounded|exhaustive, run: callable, ...)."""
 import os
 import verus_engine
+import kani_engine
+import native_engine
 
 VERIF = os.path.dirname(os.path.dirname(os.path.abspath(__file__)))
 
@@ -28,6 +30,27 @@ def V(name, unit, **kw):
     d.update(kw)
     return d
 
+
+def K(name, crate, harnesses, kind='proof', **kw):
+    """harnesses: list of dicts(name, kind complete|bounded, bounds, tier)"""
+    d = {'name': name, 'kind': kind, 'run': kani_engine.run_part, 'crate': crate, 'harnesses': harnesses}
+    d.update(kw)
+    return d
+
+
+def B(name, crate, tests, **kw):
+    d = {'name': name, 'kind': 'exhaustive', 'run': native_engine.run_part, 'crate': crate, 'tests': tests}
+    d.update(kw)
+    return d
+
+
+def H(name, kind='complete', bounds=None, tier='quick'):
+    return {'name': name, 'kind': kind, 'bounds': bounds, 'tier': tier}
+
+
+TB_KANI = ['rustc', 'Kani 0.68 / CBMC 6.11 / kissat and their models of std', 'the cfg(kani) include! hook']
+TECH_K = 'Kani function contracts / harnesses compiled inside the real crate, discharged by CBMC'
+TECH_B = 'bounded stand-in: contract evaluated exhaustively over a stated finite domain on the real code'
 
 PROPS = {}
 HOOK_COMMITS = []
@@ -123,4 +146,42 @@ PROPS['C28'] = {
     'trusted_base': TB_VERUS + ['Store::fetch_remote_manifest is the only network access reachable from handle_remote_manifest'],
     'rule': 'obligation = one Verus function-level query over real text extracted from /repo on this run',
     'not_covered': ['OCSP fetch gating', 'time-stamp authority requests', 'absence of requests in all other code paths (whole-program frame condition)', 'async flavour'],
+}
+
+
+PROPS['C27'] = {
+    'level': 'proof',
+    'level_text': 'Two discharged parts. (1) Kani function contracts on the real ipv4_is_non_global / ipv6_is_non_global, loop-free over all 2^32 and all 2^128 addresses, '
+                  'equal to the list of ranges in the statement; ip_is_non_global proved against the two contracts only (stub_verified). (2) Verus on the real bodies of '
+                  'RedirectResolver::{redirect_target, http_resolve}: a request reaches the inner resolver only if it is the original one or its target passed the '
+                  'non-global check with redirects allowed; at most 11 requests; none after the first when redirects are off. Host-string kernels are a bounded stand-in.',
+    'level_note': 'host_is_non_global(uri) == non_global(uri) and build_redirected_request(..).uri == target assumed in the Verus unit; url::Url::join canonicalisation assumed; credential-header stripping in build_redirected_request is covered by the native part only.',
+    'technique': TECH_K + ' (address classification: complete); ' + TECH_V + ' (redirect loop, ghost call counter)',
+    'parts': [
+        K('kani:ip_classification', 'sdk', [H('c27_v4_contract'), H('c27_v6_contract'), H('c27_ip_dispatch_uses_contracts')], timeout=900,
+          functions=[('sdk/src/http/restricted.rs', 'ipv4_is_non_global'), ('sdk/src/http/restricted.rs', 'ipv6_is_non_global'), ('sdk/src/http/restricted.rs', 'ip_is_non_global')]),
+        V('verus:redirect', 'redirect'),
+    ],
+    'trusted_base': TB_VERUS + TB_KANI[1:] + ['std::net::Ipv4Addr/Ipv6Addr predicates as compiled by Kani (real std code)',
+                                                'http / url types are opaque shims in the Verus unit'],
+    'rule': 'proof obligation = one Verus function query or one complete (loop-free, unconstrained-input) Kani harness',
+    'not_covered': ['async flavour http_resolve_async (same loop text, not extracted)', 'DNS rebinding (name resolves to an internal address later)',
+                    'resolve_redirect_target / url::Url::join canonicalisation'],
+}
+
+PROPS['C26'] = {
+    'level': 'proof',
+    'level_text': 'Complete Kani harness on the real RestrictedResolver::http_resolve with is_uri_allowed replaced by an arbitrary Boolean and a counting inner resolver: '
+                  'the inner resolver is called exactly once iff (no allow-list or the URI is allowed), otherwise never, and the error is UriDisallowed. '
+                  'Pattern matching (is_uri_allowed / HostPattern) is a bounded-exhaustive stand-in, not counted as proved.',
+    'level_note': 'is_uri_allowed stubbed in the enforcement proof; http::Uri is intractable in CBMC so matching is checked natively over a small alphabet; resolver stacking in Context::build_default_*_resolver not verified.',
+    'technique': TECH_K + ' (enforcement: complete); ' + TECH_B + ' (host pattern matching)',
+    'parts': [
+        K('kani:allow_list_enforced', 'sdk', [H('c26_allow_list_enforced')], timeout=900,
+          functions=[('sdk/src/http/restricted.rs', 'http_resolve', r'impl<T: SyncHttpResolver> SyncHttpResolver for RestrictedResolver<T> \{')],
+          stubs=['is_uri_allowed -> arbitrary Boolean', 'sanitize_for_log -> empty string']),
+    ],
+    'trusted_base': TB_KANI,
+    'rule': 'proof obligation = one complete Kani harness (all CBMC checks incl. safety checks SUCCESS, covers SATISFIED)',
+    'not_covered': ['resolver stacking (Context::build_default_sync_resolver / async)', 'async flavour'],
 }
